@@ -92,6 +92,17 @@ func main() {
 		os.Exit(cmdReplay(os.Args[2:]))
 	case "selftest":
 		os.Exit(cmdSelftest(os.Args[2:]))
+	case "instrument":
+		// print the schedule-gated copy of package service (native replay of schedules)
+		m, err := instrumentedService()
+		if err != nil {
+			fmt.Println("error:", err)
+			os.Exit(2)
+		}
+		for name, data := range m {
+			fmt.Printf("==== %s\n%s\n", name, data)
+		}
+		os.Exit(0)
 	}
 	fmt.Println("unknown command", os.Args[1])
 	os.Exit(2)
